@@ -11,6 +11,12 @@ Decided on every CFG path of RWLockImpl (state machines explored exhaustively):
                     writer exactly when prev == kWriteBit|1) and lock_upgrade; unlock and the try_lock
                     rollback clear only the writer bit; waitForReaderDrain waits for the word to equal
                     kWriteBit.
+  C22.word-updates  every access to the lock word in RWLockImpl is a load, fetch_add/sub/or/and or a
+                    compare-exchange: a store/exchange/notify() would erase the count of a reader
+                    that is between its speculative increment and the back-out.
+  C22.transitions   lock = setWriteBit then drain; lock_upgrade = setWriteBit, drop own count, drain;
+                    lock_downgrade = add own count, then clear only the writer bit -- in that order on
+                    every path.
 """
 from lib import rwlock_rules as rw
 
@@ -27,3 +33,7 @@ def run(R):
     R.need("C22.writer-try", n, 1, "RWLockImpl::try_lock")
     n = rw.release_rules(R, R.F, "C22.release", WHY)
     R.need("C22.release", n, 6, "release / drain sites")
+    n = rw.word_updates(R, R.F, "C22.word-updates")
+    R.need("C22.word-updates", n, 10, "accesses to the lock word in RWLockImpl")
+    n = rw.transitions(R, R.F, "C22.transitions")
+    R.need("C22.transitions", n, 3, "lock / lock_upgrade / lock_downgrade")
